@@ -28,6 +28,39 @@ from ..model import walk_own
 from ..protocol import Report
 
 
+def _is_error_expr(model: Model, fi: Any, e: ast.expr, base: Any, seen: set) -> bool:
+    if isinstance(e, ast.IfExp):
+        return _is_error_expr(model, fi, e.body, base, seen) and _is_error_expr(model, fi, e.orelse, base, seen)
+    if isinstance(e, ast.Call):
+        r = model.resolve_expr_static(fi.module, e.func)
+        if r and r[0] == "class":
+            return r[1].is_subclass_of(base)
+        if r and r[0] == "func":
+            return _returns_only_errors(model, r[1], base, seen)
+    if isinstance(e, ast.Name):
+        return _local_is_error(model, fi, e.id, base, seen)
+    return False
+
+
+def _returns_only_errors(model: Model, fn: Any, base: Any, seen: set) -> bool:
+    """Every return of the helper hands back a newly built JSONPathError (subclass) instance."""
+    if fn.qualname in seen or fn.is_generator:
+        return False
+    seen = seen | {fn.qualname}
+    rets = [n for n in walk_own(fn.node) if isinstance(n, ast.Return)]
+    return bool(rets) and all(r.value is not None and _is_error_expr(model, fn, r.value, base, seen) for r in rets)
+
+
+def _local_is_error(model: Model, fi: Any, name: str, base: Any, seen: Any = None) -> bool:
+    vals = []
+    for n in walk_own(fi.node):
+        if isinstance(n, ast.Assign) and any(isinstance(t, ast.Name) and t.id == name for t in n.targets):
+            vals.append(n.value)
+        elif isinstance(n, ast.AnnAssign) and isinstance(n.target, ast.Name) and n.target.id == name and n.value is not None:
+            vals.append(n.value)
+    return bool(vals) and all(_is_error_expr(model, fi, v, base, seen or set()) for v in vals)
+
+
 def check_raise_classes(model: Model, report: Report, rule: str) -> None:
     base = model.cls("exceptions.JSONPathError")
     n = 0
@@ -54,6 +87,10 @@ def check_raise_classes(model: Model, report: Report, rule: str) -> None:
             text = ast.unparse(target)
             if r and r[0] == "class" and r[1].is_subclass_of(base):
                 report.ok(rule, fi.qualname, f"raise {r[1].name}")
+            elif r and r[0] == "func" and isinstance(node.exc, ast.Call) and _returns_only_errors(model, r[1], base, set()):
+                report.ok(rule, fi.qualname, f"raise {text}(...) (a factory whose every return is a JSONPathError)")
+            elif isinstance(target, ast.Name) and _local_is_error(model, fi, target.id, base):
+                report.ok(rule, fi.qualname, f"raise {text} (a local bound to a JSONPathError)")
             elif text == "StopIteration" and fi.name == "__next__":
                 report.ok(rule, fi.qualname, "raise StopIteration in an iterator's __next__", nontrivial=False)
             else:
@@ -156,18 +193,18 @@ def builtin_calls(model: Model) -> None:
             def body(it: Interp, fname=fname, nargs=nargs, kind=kind) -> Any:
                 env = real_env(it, model)
                 tok = it.new_opaque("tok")
-                q = it.new_inst(model.cls("query.JSONPathQuery"), "q")
+                q = it.harness_inst(model.cls("query.JSONPathQuery"), "q")
                 q.attrs.update({"env": env, "segments": PyTuple(())})
-                rel = it.new_inst(model.cls(FE + "RelativeFilterQuery"), "@")
+                rel = it.harness_inst(model.cls(FE + "RelativeFilterQuery"), "@")
                 rel.attrs.update({"token": tok, "query": q})
                 args = [rel]
                 if nargs == 2:
-                    lit = it.new_inst(model.cls(FE + "StringLiteral"), "lit")
+                    lit = it.harness_inst(model.cls(FE + "StringLiteral"), "lit")
                     lit.attrs.update({"token": tok, "value": it.new_sym("pattern", ["str"])})
                     args.append(lit)
-                call = it.new_inst(model.cls(FE + "FunctionExtension"), "call")
+                call = it.harness_inst(model.cls(FE + "FunctionExtension"), "call")
                 call.attrs.update({"token": tok, "name": Const(fname), "args": it.new_list(args)})
-                c = it.new_inst(model.cls(FE + "FilterContext"), "context")
+                c = it.harness_inst(model.cls(FE + "FilterContext"), "context")
                 c.attrs.update({"env": env, "current": it.new_sym("current", [kind]), "root": it.new_sym("root")})
                 return it.call_function(call.cls.find_method("evaluate"), [call, c], {}, None, self_av=call)
 
@@ -230,6 +267,38 @@ def tokenize_cells(model: Model) -> None:
             paths(model, body)
 
 
+def report_escapes(model: Model, report: Report, rule: str, what: str) -> Dict[str, int]:
+    """Explore every cell with the escape monitor on and report each foreign exception once (shared with C20: whatever
+    escapes compile() or evaluation as a non-JSONPathError reaches the CLI as a traceback)."""
+    saved = harness.MONITOR
+    harness.MONITOR = []
+    try:
+        counts = explore_cells(model, report.tier)
+        found = list(harness.MONITOR)
+    finally:
+        harness.MONITOR = saved
+    seen = set()
+    for f in found:
+        site = f["site"]
+        fnq = site[2] if site else (f["entry"][0] if f["entry"] else "?")
+        key = f"escape:{f['exc']}@{fnq}"
+        if key in seen:
+            continue
+        seen.add(key)
+        report.fail(
+            rule,
+            fnq,
+            key,
+            f"{f['exc']} ({f['msg']}) {what}; raised at {site[0] if site else '?'}:{site[1] if site else 0}; interpreted entry {f['entry']}; assumptions {f['world']}",
+            file=site[0] if site else "",
+            line=site[1] if site else 0,
+        )
+    for name, k in counts.items():
+        if k == 0:
+            report.ok(rule, "<cells>", f"{name}: no foreign exception escapes")
+    return counts
+
+
 def check(model: Model, report: Report) -> None:
     report.rule("R13.1", "every raise statement in compile/evaluation code raises a JSONPathError subclass (or re-raises)")
     report.rule("R13.2", "no exception other than a JSONPathError escapes any interpreted cell: token shapes, symbolic lexemes at every consumption site, every lexer state, string decoding, every selector/segment/visitor on every kind of value, every expression evaluator and conversion, built-in functions over all argument kinds, node rendering")
@@ -241,30 +310,6 @@ def check(model: Model, report: Report) -> None:
         "index bookkeeping across iterations of scanner loops (each iteration is analysed from an arbitrary in-range position)",
     ]
     check_raise_classes(model, report, "R13.1")
-    harness.MONITOR = []
-    try:
-        counts = explore_cells(model, report.tier)
-        found = list(harness.MONITOR)
-    finally:
-        harness.MONITOR = None
-    seen = set()
-    for f in found:
-        site = f["site"]
-        fnq = site[2] if site else (f["entry"][0] if f["entry"] else "?")
-        key = f"escape:{f['exc']}@{fnq}"
-        if key in seen:
-            continue
-        seen.add(key)
-        report.fail(
-            "R13.2",
-            fnq,
-            key,
-            f"{f['exc']} ({f['msg']}) can escape instead of a JSONPathError; raised at {site[0] if site else '?'}:{site[1] if site else 0}; interpreted entry {f['entry']}; assumptions {f['world']}",
-            file=site[0] if site else "",
-            line=site[1] if site else 0,
-        )
-    for name, k in counts.items():
-        if k == 0:
-            report.ok("R13.2", "<cells>", f"{name}: no foreign exception escapes")
+    counts = report_escapes(model, report, "R13.2", "can escape instead of a JSONPathError")
     report.extra["cell_sections"] = counts
     report.extra["explanation"] = "C13: raise-class discipline over the AST + a monitor over all abstract-interpretation cells of the other properties."
